@@ -160,6 +160,12 @@ JoinPath(comps, star) ==
 \* when its object has no members, i.e. when every field is absent)
 GarbleParents(comps, keepElem) ==
   [k \in 1..Len(comps) |-> IF k = Len(comps) \/ IsIdx(comps[k]) \/ (keepElem /\ k = 2) THEN comps[k] ELSE "?"]
+\* Sub-case in which not even the identity of the paths can be stated: a loaded string longer than the buffer's initial
+\* (small-string) capacity of 15 bytes reallocates the buffer, the parent views then refer to freed memory, and the bytes
+\* seen for the keys of two map elements differ unpredictably - this only matters where path identity decides, i.e. for
+\* the count against the cap with two map elements.
+DevUndefined_MsgPackStreamParentKeyView(s) ==
+  s.place = "map" /\ s.nel > 1 /\ s.cap > 0 /\ \E k \in 1..Len(s.fields) : s.fields[k].doc[1] = "str" /\ Len(s.fields[k].doc[2]) > 15
 DevGuard_MsgPackStreamParentKeyView(s) == s.place \in {"nested", "arr", "map"}      \* the path has a parent key
 
 \* path as reported by an archive, array positions replaced by '*' (the property: "array positions aside").
